@@ -22,7 +22,7 @@ RULE = ('Typed expression IR (Bool/Num/Str roots; depth<=4; every documented mat
 ASSUMPTIONS = ['regular-expression semantics are Python re (the documented pattern language); fuzzy() is checked by laws only',
                'month/year/day/weekday of a missing date is undocumented: such evaluations are counted, not asserted',
                'case-insensitivity is asserted for ASCII letters only (the statement says ASCII text)']
-REQUIRED_CLASSES = ['date_primitives_exhaustive', 'short_circuit_guard', 'chain', 'comprehension', 'div_zero', 'law_case_flip', 'fuzzy_delete', 'fuzzy_substitute', 'fuzzy_text_arg']
+REQUIRED_CLASSES = ['law_function_name_case', 'date_primitives_exhaustive', 'short_circuit_guard', 'chain', 'comprehension', 'div_zero', 'law_case_flip', 'fuzzy_delete', 'fuzzy_substitute', 'fuzzy_text_arg']
 
 
 def tally_eval(src, txn, variables=None, rows=None):
@@ -81,6 +81,26 @@ case_st = st.fixed_dictionaries({
 })
 
 
+def respell_calls(src, mask):
+    """Upper-case / capitalise the names of called functions (NAME immediately followed by '(' and not a method), leaving literals untouched."""
+    import io
+    import keyword
+    import tokenize
+    try:
+        toks = list(tokenize.generate_tokens(io.StringIO(src).readline))
+    except (tokenize.TokenError, IndentationError, SyntaxError):
+        return src
+    out = list(src)
+    k = 0
+    for i, t in enumerate(toks):
+        if t.type == tokenize.NAME and not keyword.iskeyword(t.string.lower()) and t.string.lower() not in ('true', 'false', 'none') and i + 1 < len(toks) and \
+                toks[i + 1].string == '(' and (i == 0 or toks[i - 1].string != '.') and t.start[0] == 1:
+            k += 1
+            new = t.string.upper() if (mask >> (k % 8)) & 1 else t.string.capitalize()
+            out[t.start[1]:t.end[1]] = list(new)
+    return ''.join(out)
+
+
 def check(case, stats: Stats):
     e = case['expr']
     src = lang.render(e)
@@ -114,6 +134,16 @@ def check(case, stats: Stats):
         if exp[0] != 'unspec' and not same(exp, got):
             raise Violation(f'after evaluating {src!r}, its case-variant {lang.render(e_alt)!r}\n on {case["txns"][0]} gives {got!r}, reference {exp!r}',
                             {'kind': 'variant', 'expr': e, 'flip': case['flip'], 'txn': case['txns'][0], 'rows': case['rows'], 'vars': variables}, 'case-variant')
+    # "changing the letter case of ... function and variable names never changes the result": every called function (built-ins handled by the
+    # evaluator itself included: any / sum / len / next / min / max / exists) is re-spelled in the source text; string literals are left alone
+    src_up = respell_calls(src, case['flip'])
+    if src_up != src:
+        classes.add('law_function_name_case')
+        txn0 = lang.mk_txn(case['txns'][0])
+        a, b_ = tally_eval(src, txn0, variables, rows), tally_eval(src_up, txn0, variables, rows)
+        if not same(a, b_) and not (a[0] == b_[0] == 'err'):
+            raise Violation(f'letter case of function names changed the result on {case["txns"][0]}:\n  {src!r} -> {a!r}\n  {src_up!r} -> {b_!r}',
+                            {'kind': 'fncase', 'src': src, 'src2': src_up, 'txn': case['txns'][0], 'rows': case['rows'], 'vars': variables}, 'law-function-case')
     # ---- laws on the real evaluator (Boolean roots) ----
     tc = case['txns'][0]
     txn = lang.mk_txn(tc)
@@ -388,6 +418,13 @@ def exhaustive(tier, stats: Stats, part, nparts):
 
 
 def replay(case):
+    if case.get('kind') == 'fncase':
+        txn0 = lang.mk_txn(case['txn'])
+        rows = lang.mk_rows(case['rows']) if case.get('rows') else {}
+        a, b_ = tally_eval(case['src'], txn0, case['vars'], rows), tally_eval(case['src2'], txn0, case['vars'], rows)
+        if not same(a, b_) and not (a[0] == b_[0] == 'err'):
+            raise Violation(f"letter case of function names changed the result: {case['src']!r} -> {a!r}, {case['src2']!r} -> {b_!r}", case, 'law-function-case')
+        return
     if case.get('kind') == 'fuzzy':
         return check_fuzzy(case, Stats())
     if case.get('kind') == 'ref':
